@@ -818,6 +818,17 @@ def _scale_mod():
 DEBUG_MAX_N = 256          # the debug build (collects at every allocation) runs the ladder up to this size; release runs all of it
 
 
+def debug_selected(case, n, quick):
+    """the debug build is ~100x slower: thorough runs the whole ladder up to DEBUG_MAX_N on it, quick all of n <= 32 and, for
+    64..DEBUG_MAX_N, the dense strings, the totals n and n+1 and the straddling start n-1 (release runs everything in both tiers)"""
+    if n > DEBUG_MAX_N:
+        return False
+    if not quick or n <= 32:
+        return True
+    lab = case["label"]
+    return lab.startswith("dense") or (lab.startswith("total") and ("%d+0 " % n in lab or "%d+1 " % n in lab)) or "start=%d" % (n - 1) in lab
+
+
 def r9_run_believed(SC, binary, cases):
     """judges the cases; a case that differs is re-run ALONE (machine load / a time-out must not be believed at once)"""
     res = SC.run_cases(binary, cases)
@@ -843,7 +854,7 @@ def run_r9(ctx):
     n_ops = n_scale_ops = 0
     for profile in ("release", "debug"):
         binary = ctx.harness(profile)
-        sel = [c for c, n in scale if profile == "release" or n <= DEBUG_MAX_N]
+        sel = [c for c, n in scale if profile == "release" or debug_selected(c, n, ctx.quick())]
         n_ops += sum(len(c["ops"]) for c in sel)
         n_scale_ops += sum(len(c["ops"]) for c in sel)
         res = r9_run_believed(SC, binary, sel)
@@ -964,9 +975,9 @@ def run(ctx):
         ".  ROUND 9 (counted in evaluations, not in distinct_nontrivial): LENGTH-SCALE family - byte lengths around every power of two 16..8192 and "
         "1000/10000/65536/100000 with a 2-/3-/4-byte character starting at n-8..n+1 (straddling n, every offset mod 8), total lengths n-2..n+2 ending in "
         "a multi-byte character, and dense all-multi-byte strings in every alignment, through every string function and conversion, oracle = byte-exact "
-        "reference on the same input / closed forms (release build: all sizes, debug build: n <= %d); ERROR-PATH family - every message of the string/"
+        "reference on the same input / closed forms (release build: all sizes, debug build: n <= %d, in quick a fixed subset of the shapes above n = 32); ERROR-PATH family - every message of the string/"
         "index code that quotes a value x offending values whose printed form is 8..4200 bytes of 2-/3-/4-byte characters in every alignment "
-        "(bare strings, vec/tuple/nested vec/hashmap key/hashmap value), oracle = message template filled with the Display form" % DEBUG_MAX_N)
+        "(bare strings, vec/tuple/nested vec/hashmap key/hashmap value) and numbers printed in 31..303 digits, oracle = message template filled with the Display form" % DEBUG_MAX_N)
 
 
 def search(ctx):
